@@ -321,8 +321,8 @@ class HiddenTunnelCommunity(TunnelCommunity):
                 if pex:
                     pex.stop_announce(seeder_pk)
 
-                    # Unload PEX community
-                    if pex.done:
+                    # Unload PEX community (once our task manager is shut down, unload() takes care of what is left)
+                    if pex.done and not self._shutdown:
                         self.pex.pop(info_hash, None)
                         if self.ipv8 is not None:
                             self.ipv8.overlays.remove(pex)
